@@ -17,7 +17,7 @@ func classify(v *report.Violation) {}
 
 func TestCheck(t *testing.T) {
 	run := report.New("C09", "exploration")
-	run.Rule = "every input of the finite generator G1..G9 (gen_test.go: seeds, all truncations, every position x boundary bytes, 8-bit length fields x 256, 16-bit length fields x boundary values [x 65536 and length-field pairs in thorough], all byte strings up to length 2 (3 for pure decoders) raw and framed, 2 KiB padded / option-multiplied variants) is executed on the real decoder/handler in every listed pre-state; oracle: the call returns (value or error) - a recovered panic, a dead worker process or a call exceeding 10 s twice is a violation. Input slices have cap==len so any read outside the input panics."
+	run.Rule = "every input of the finite generator G1..G9 (gen_test.go: seeds, all truncations, every position x boundary bytes, 8-bit length fields x 256, 16-bit length fields x boundary values [x 65536 and length-field pairs in thorough], all byte strings up to length 2 (3 for pure decoders) raw and framed, 2 KiB padded / option-multiplied variants) is executed on the real decoder/handler in every listed pre-state; oracle: the call returns (value or error) - a recovered panic, a dead worker process, a synctest deadlock (timer-driven automata run with their real restart timers in virtual time: state x {no timeout, one restart timeout fired, retransmissions exhausted} x packet, then all remaining timers run out; a goroutine left durably blocked is reported by the runtime) or - backstop only - a call exceeding 10 s twice is a violation. Stream decoders (HA SSE reader, full-sync reader) get every cut point of a valid stream as an in-memory HTTP body ending in EOF or a reset. Input slices have cap==len so any read outside the input panics."
 	run.Assumptions = []string{
 		"panics are grouped by the first repository frame below the panic (one report per root cause, shortest input)",
 		"PPPoE server driven through handleDiscovery/handleSession with an in-memory socket (Ethernet header already stripped as receiveLoop does)",
@@ -25,8 +25,11 @@ func TestCheck(t *testing.T) {
 		"DHCPv4 with a RADIUS client uses an in-process RADIUS responder on loopback; those parts run in child processes because the handler starts accounting goroutines",
 		"restart timers of the PPP automata set to 1h so that only the packet under test drives the automaton",
 		"the 'linear time' clause is checked only as: no call on a <=2 KiB input takes 10 s",
+		"secondary configurations of an entry point (quickLite parts) get seeds, truncations, length-field values and 2 KiB variants in the quick tier and the full generator in thorough",
+		"a restart timer that expires WHILE a packet handler holds the automaton lock is an interleaving (mutex contention is not durably blocking in synctest) and is not enumerated here; mutex self-deadlocks are caught only by the 10 s x 2 backstop",
 		"every handler is enumerated under each configuration switch it branches on: DHCPv6 legacy/integrated/absent address and prefix back-ends (all 8 combinations used) x lease, DNS on/off; DHCPv4 loader nil/unloaded, RADIUS off/accept/reject/accounting-only, QoS+NAT managers, empty pool manager; PPPoE server with/without pool+DNS and with a RADIUS client; Authenticator with RADIUS accept/reject incl. the rate-limited state; IPCP static/pool/no peer address; LCP PAP/CHAP+PFC+ACFC; CoA default and application handlers. Not covered: DHCPv4 with Nexus client / HTTP allocator / peer pool (need an HTTP peer)",
 	}
+	theT = t
 	ts := allTargets()
 	if *flagChild != "" {
 		os.Exit(childMain(run, ts))
@@ -104,6 +107,17 @@ func replay(run *report.Run, e *engine, ts []*target) int {
 		fmt.Println("HARNESS-ERROR unknown target", name)
 		return 2
 	}
+	if tg.precheck != nil {
+		if p := tg.precheck(); p != nil && !p.harness {
+			k := p.kind
+			if k == "" {
+				k = "panic"
+			}
+			e.record(k, tg, nil, p.site, p.msg, p.stack)
+			e.reportViolations()
+			return run.Finish()
+		}
+	}
 	if tg.isolate {
 		res := e.runChild(tg, "0/1", "", hx)
 		if res.harnessErr != "" {
@@ -130,7 +144,11 @@ func replay(run *report.Run, e *engine, ts []*target) int {
 		select {
 		case p := <-done:
 			if p != nil && !p.harness {
-				e.record("panic", tg, in, p.site, p.msg, p.stack)
+				k := p.kind
+				if k == "" {
+					k = "panic"
+				}
+				e.record(k, tg, in, p.site, p.msg, p.stack)
 			}
 		case <-time.After(2 * hangCap):
 			e.record("hang", tg, in, "hang in "+tg.entry, "call did not return within 20 s", "")
